@@ -270,6 +270,7 @@ func genEvents(e *emitter, r *rng.R, n int, tier string) {
 		"L:2 c0 r0:SCHEMA_CHANGE s1:K x s2:T c1 r1:STATUS_CHANGE,SCHEMA_CHANGE s3:A",
 		"L:2 c0 r0:SCHEMA_CHANGE r0:SCHEMA_CHANGE s1:Y",
 		"L:2 c0 c1 r0:SCHEMA_CHANGE y1:K s2:T",
+		"L:2 c0 c1 r0:SCHEMA_CHANGE r1:SCHEMA_CHANGE s1:T s1:T s2:K s1:T",
 		"L:1 c0 r0:SCHEMA_CHANGE s1:K y2:T y3:A s4:F",
 	}
 	defer func() { e.emitAll(ops, 8) }()
@@ -290,7 +291,11 @@ func genEvents(e *emitter, r *rng.R, n int, tier string) {
 				parts = append(parts, fmt.Sprintf("d%d", ci))
 			case c < 15:
 				ev++
-				parts = append(parts, fmt.Sprintf("s%d:%s", ev, rr.Pick([]string{"K", "T", "Y", "F", "A"})))
+				tok := fmt.Sprintf("s%d:%s", ev, rr.Pick([]string{"K", "T", "Y", "F", "A"}))
+				parts = append(parts, tok)
+				if rr.Intn(4) == 0 { // the backend emits the very same event again (two ALTERs of one table)
+					parts = append(parts, tok)
+				}
 			case c == 15 && rr.Intn(3) == 0:
 				ev++
 				parts = append(parts, fmt.Sprintf("y%d:%s", ev, rr.Pick([]string{"K", "T", "Y", "F", "A"})))
